@@ -44,6 +44,23 @@ fn gen_value(src: &mut Src, uniq: &mut u64) -> (String, ReplicatedValue, Replica
     (key, v, rid)
 }
 
+/// True if the value's encoding does not depend on any HashMap/HashSet iteration order (every
+/// map or set inside holds at most one entry): only such values are damaged, so that a failing
+/// mutation offset means the same thing in every process and the replay file reproduces.
+fn order_free(v: &ReplicatedValue) -> bool {
+    fn walk(x: &serde_json::Value, under_map: bool) -> bool {
+        match x {
+            serde_json::Value::Object(m) => {
+                if under_map && m.len() > 1 { return false; }
+                m.iter().all(|(k, c)| walk(c, matches!(k.as_str(), "Hash" | "counts" | "elements" | "next_sequence" | "clocks") || (under_map && c.is_object() && !c.get("timestamp").is_some())))
+            }
+            serde_json::Value::Array(a) => { if under_map && a.len() > 1 && !a.iter().all(|e| e.is_number()) { return false; } a.iter().all(|c| walk(c, under_map && !c.is_number())) }
+            _ => true,
+        }
+    }
+    walk(&serde_json::to_value(v).unwrap_or(serde_json::Value::Null), false)
+}
+
 fn dsig(d: &ReplicationDelta) -> String { format!("{:?}|{}|{}", d.key, d.source_replica.0, proj_s(&d.value)) }
 
 /// Decode an image of encoding `enc`; Ok(signatures) or Err(reader's error).
@@ -79,7 +96,7 @@ impl Property for C14 {
     fn components_stubbed(&self) -> Vec<&'static str> { vec!["no store/transport: the encoded image is damaged in memory, standing for at-rest corruption and torn reads (C10/C12 run the same readers behind the simulated disk and object store)"] }
     fn assumptions(&self) -> Vec<&'static str> { vec!["gossip JSON carries no checksum: for it only the round trip and 'no panic' are claimed (the property's damage clause names segment, checkpoint and WAL payload)", "a damaged image may decode to content identical to the original (unused or redundant bytes)"] }
     fn required_probes(&self) -> Vec<&'static str> { vec!["roundtrip_all_types", "damage_detected", "damage_harmless_identical", "large_batch"] }
-    fn runs(&self, tier: Tier) -> u64 { match tier { Tier::Quick => 600, Tier::Thorough => 20_000 } }
+    fn runs(&self, tier: Tier) -> u64 { match tier { Tier::Quick => 2500, Tier::Thorough => 40_000 } }
 
     fn run(&self, src: &mut Src, ctx: &RunCtx) -> RunReport {
         let mut rep = RunReport::default();
@@ -118,8 +135,18 @@ impl Property for C14 {
                 Err(e) => { rep.violate(format!("C14/roundtrip-fails/{}", enc_name(*enc)), format!("{} of {} updates does not decode: {}", enc_name(*enc), w.len(), e)); return rep; }
             }
         }
-        // ---- damage
+        // ---- damage (on images whose bytes are the same in every process)
         let thorough = ctx.tier == Tier::Thorough;
+        let free: Vec<&(String, ReplicatedValue, ReplicaId)> = items.iter().filter(|(_, v, _)| order_free(v)).collect();
+        let fdeltas: Vec<ReplicationDelta> = free.iter().map(|(k, v, r)| ReplicationDelta::new(k.clone(), v.clone(), *r)).collect();
+        let fwant: Vec<String> = fdeltas.iter().map(dsig).collect();
+        let mut images: Vec<(u64, Vec<u8>, Vec<String>)> = Vec::new();
+        if !fdeltas.is_empty() {
+            { let mut b = Vec::new(); for d in &fdeltas { if let Ok(e) = WalEntry::from_delta(d, d.value.timestamp.time) { b.extend_from_slice(&e.encode()); } } images.push((0, b, fwant.clone())); }
+            { let mut w = SegmentWriter::new(Compression::None); for d in &fdeltas { let _ = w.write_delta(d); } if let Ok(b) = w.finish() { images.push((1, b, fwant.clone())); } }
+            { let (k, v, _) = free[0]; let mut state: HashMap<String, ReplicatedValue> = HashMap::new(); state.insert(k.clone(), v.clone()); let w = vec![format!("{:?}|{}", k, proj_s(v)), "meta:1:77:3".to_string()]; if let Ok(b) = CheckpointWriter::new(Compression::None).write(state, 77, 3) { images.push((2, b, w)); } }
+            { let m = GossipMessage::new_delta_batch(ReplicaId::new(3), fdeltas.clone(), 5); if let Ok(b) = m.serialize() { let mut w = fwant.clone(); w.push("from:3".into()); images.push((3, b, w)); } }
+        }
         for (enc, img, w) in &images {
             let len = img.len();
             if len == 0 { continue; }
